@@ -114,6 +114,17 @@ def impl(case):
             out["corr_shape"] = list(np.shape(nw.axis_correlation_matrix))
         except Exception as e:
             out["corr_err"] = C.exc_enum(e)
+        # the bounds of a WCS derived from one that has a box: the intervals of the pixel axes that remain
+        try:
+            wb = gw.WCS([(G.frame_obj("detector", 3), G.build(["stack", ["stack", ["shift", 1], ["scale", 2]], ["shift", 3]])), (G.frame_obj("world", 3), None)])
+            box3 = ((0.0, 10.0), (1.5, 20.0), (-0.5, 30.5))
+            wb.bounding_box = box3
+            pbd = wb.fix_inputs({case["axis"]: 5.0}).pixel_bounds
+            want = [list(iv) for i, iv in enumerate(box3) if i != case["axis"]]
+            got = None if pbd is None else [[float(a), float(b)] for a, b in pbd]
+            out["fixed_bounds"] = "ok" if got == want else "pixel_bounds %s, the remaining intervals of the box are %s" % (got, want)
+        except Exception as e:
+            out["fixed_bounds"] = "raised %s: %s" % (type(e).__name__, str(e)[:80])
         # the same derivation on a unit-carrying WCS: the values interface of the derived WCS equals its forward evaluation
         try:
             from astropy import units as _u
@@ -293,6 +304,8 @@ def _oracle(case, res):
                         % (res["pixel_n_dim"], res["n_inputs"], res.get("corr_err", res.get("corr_shape")))))
         if res["world_n_dim"] != res["n_outputs"]:
             out.append(("ndim", "world_n_dim %s != n_outputs %s" % (res["world_n_dim"], res["n_outputs"])))
+        if res.get("fixed_bounds", "ok") != "ok":
+            out.append(("fixed_bounds", "a WCS derived with fix_inputs from one with a bounding box: %s" % res["fixed_bounds"]))
         if res.get("units_fixed", "ok") != "ok":
             out.append(("fixed_units", "pixel_to_world_values of a unit-carrying WCS derived with fix_inputs: %s" % res["units_fixed"]))
         return out
